@@ -153,6 +153,7 @@ def run_shape(shape, tier):
         env = Env(symbolic=True)
         sqlprogs.setup_leaves(ctx, env, prog, n)
         templates.declare(ctx, env, shape["params"], shape["cons"])
+        sqlprogs.history(env, prog)
         sq = env.engines["sq"]
         try:
             if kind == "api":
